@@ -29,7 +29,12 @@ META = dict(
          "every order AB, BA, AAB, BAA (BAB thorough), with name pairs where one is a proper prefix of the other (wfd/wfder, "
          "wfd/wfdd) or unrelated (wfd/wfg); each original is renamed to <other>er, to proper prefixes of the other, to <self>er and "
          "to an unrelated fresh name; the clone name wfa_<original><count> must change in exactly the renamed original's component "
-         "and every path of the other clones must stay put.",
+         "and every path of the other clones must stay put.  Actor name family: three sibling doers in one frame whose names (`do lit "
+         "as pump 1|pump 2|pump`, pump_a/pump_b/pump a, big mixer 2/3, p1x/p2x/px, and the doer kinds lit 2/lit 3/lit without `as`) "
+         "differ only in digits / underscores, with `per v pl.x` (default doer inode), inline framer.me.frame.me.actor.me and "
+         "framer.me.actor.me ipaths, `via x of actor`, `via nd of actor me per v z`; exact oracle: the actor-relative node is the "
+         "name's segments per nameToPath's docstring (upper case letter starts a node, every other character kept); siblings never "
+         "alias; each doer renamed to names with / without digits and underscores changes exactly its own segments.",
     note="Inode prefixes are name-free, so oracle 2 is exact about names but says nothing about the literal inode segments; "
          "their layout is only checked for renaming invariance (oracle 1).  `as mine` insular clones (generated tags) and the "
          "`do .. as name via/per` parsing defect of C15 are avoided by writing `at enter` after the doer name.",
@@ -527,6 +532,145 @@ def check_insular(real, addr, p, case):
         p.sample(dict(originals=[a, b], clone_order=sname, mode=mode, line=line, clones=clones))
 
 
+# ----------------------------------------------------------------------------- actor name family
+#
+# The only names that reach aiding.nameToPath are actor names: `do kind as name part ..` (name = capitalised parts
+# joined) or, without `as`, the doer kind itself.  nameToPath is documented as: every upper case letter starts a new
+# node (lower-cased), everything else is kept -- digits and underscores included.  Sibling doers whose names differ only
+# in such characters must own different actor-relative nodes, and renaming one of them (to or from a name with a digit or
+# underscore) must change exactly its own segments.
+
+ACLAUSES = [
+    ("default-inode", "per v pl.x",                          dict(inode="{B}.actor.{S}", v="{B}.actor.{S}.pl.x")),
+    ("inline-full",   "per v framer.me.frame.me.actor.me.x", dict(inode="{B}.actor.{S}", v="{B}.actor.{S}.x")),
+    ("inline-framer", "per v framer.me.actor.me.x",          dict(inode="{B}.actor.{S}", v="framer.wfa.actor.{S}.x")),
+    ("via-of-actor",  "via x of actor",                      dict(inode="{B}.actor.{S}.x")),
+    ("via-actor-me-per", "via nd of actor me per v z",       dict(inode="{B}.actor.{S}.nd", v="{B}.actor.{S}.nd.z")),
+]
+ABASE = "framer.wfa.frame.hra"
+# (id, uses `as`, three sibling name tokens, renaming targets)
+ATRIPLES = [
+    ("digits",      True,  ["pump 1", "pump 2", "pump"],               ["pump 3", "valve", "valve 7", "valve_c", "pump 12"]),
+    ("underscore",  True,  ["pump_a", "pump_b", "pump a"],             ["pump_c", "valve", "valve 7", "pump 1"]),
+    ("camel-digit", True,  ["big mixer 2", "big mixer 3", "big mixer"], ["big mixer 4", "valve", "big valve 2", "big_mixer 2"]),
+    ("inner-digit", True,  ["p1x", "p2x", "px"],                       ["p3x", "valve", "p_x", "x9"]),
+    ("kind",        False, ["lit 2", "lit 3", "lit"],                  ["lit 4", "lit_b", "big lit 7"]),
+]
+
+
+def actor_name(token):
+    return "".join(part.capitalize() for part in token.split())
+
+
+def actor_program(uses_as, tokens, clause):
+    src = ["house h", "framer wfa be active first hra", "frame hra"]
+    for t in tokens:
+        src.append("  do lit as %s at enter %s" % (t, clause) if uses_as else "  do %s at enter %s" % (t, clause))
+    src += ["framer wfb be active first hrc", "frame hrc", ""]
+    return "\n".join(src)
+
+
+def actor_cases(tier):
+    out = []
+    for tid, uses_as, tokens, targets in ATRIPLES:
+        for cl in ACLAUSES:
+            out.append((tid, uses_as, tokens, targets, cl))
+    return out
+
+
+def actor_observe(real, addr, text, n):
+    """-> (kind, [ {key: path} per doer in script order ], store names, error)"""
+    res = real.build_text(text, limit=30.0)
+    if res.kind == "Watchdog":
+        res = real.build_text(text, limit=120.0)
+    if not res.ok:
+        return (res.kind, None, None, "%s %s" % (res.kind, res.exc))
+    house = res.houses[0]
+    fr = [fm for fm in house.framers if fm.name == "wfa"][0].frameNames["hra"]
+    doers = []
+    for ln, ix, act in addr.frame_acts(fr):
+        if ln == "enacts":
+            doers.append((addr.actor_name(act), dict((k.split(":")[1], v.split(" ", 1)[1]) for k, v in addr.share_refs(act))))
+    names = sorted(x[0] for x in real.dump_share_tree(house.store))
+    return ("ok", doers, names, "") if len(doers) == n else ("count", doers, names, "found %d doers" % len(doers))
+
+
+def check_actor(real, addr, p, case):
+    tid, uses_as, tokens, targets, (cid, clause, expect) = case
+    text = actor_program(uses_as, tokens, clause)
+    tag = "actor-name|%s|%s" % (tid, cid)
+    rep = dict(script=text, clause=clause, doers=tokens,
+               how="build with ioflo.base.building.Builder; each doer's Node/Share attributes (inode, v) hold the resolved "
+                   "actor-relative paths; actor name -> path segments per aiding.nameToPath's docstring")
+    orig = actor_observe(real, addr, text, len(tokens))
+    p.evaluations += 1
+    if orig[0] != "ok":
+        p.violation("%s|refused" % tag, ",".join(tokens), "doers %s with `%s` could not be built: %s" % (tokens, clause, orig[3]), rep)
+        return
+    p.nontrivial(tag)
+    p.outcome("actor names: built")
+
+    def expected(token):
+        segs = ".".join(addr.name_segments(actor_name(token)))
+        return dict((k, v.replace("{B}", ABASE).replace("{S}", segs)) for k, v in expect.items())
+
+    # exact: the segments of each doer's own name, all characters kept
+    for token, (aname, refs) in zip(tokens, orig[1]):
+        p.evaluations += 1
+        exp = expected(token)
+        if aname != actor_name(token) or refs != exp:
+            p.violation("%s|actor-segments" % tag, "%s doer %s" % (",".join(tokens), token),
+                        "`do .. %s .. %s`: actor %s resolves its actor-relative references to %r, the name's segments give %r" % (
+                            token, clause, aname, refs, exp), dict(rep, actor=aname, resolved=refs, expected=exp))
+            break
+    # siblings with different names never share a node
+    seen = {}
+    for token, (aname, refs) in zip(tokens, orig[1]):
+        for k, v in refs.items():
+            if (k, v) in seen:
+                p.violation("%s|siblings-aliased" % tag, ",".join(tokens),
+                            "doers %s and %s resolve %s to the same path %s" % (seen[(k, v)], token, k, v), rep)
+            seen[(k, v)] = token
+    # every single renaming of one doer
+    for i, old in enumerate(tokens):
+        for new in targets:
+            if new in tokens:
+                continue
+            t2 = list(tokens)
+            t2[i] = new
+            rtext = actor_program(uses_as, t2, clause)
+            ren = actor_observe(real, addr, rtext, len(tokens))
+            p.evaluations += 1
+            where = "%s rename %s -> %s" % (",".join(tokens), old, new)
+            rrep = dict(rep, renamed_script=rtext, rename=[old, new])
+            if ren[0] != "ok":
+                p.violation("%s|build-outcome-depends-on-name" % tag, where, "after renaming doer %s -> %s: %s" % (old, new, ren[3]), rrep)
+                continue
+            osegs = addr.name_segments(actor_name(old))
+            nsegs = addr.name_segments(actor_name(new))
+
+            def subst(path):
+                parts = path.split(".")
+                for j in range(len(parts)):
+                    if parts[j] == "actor" and parts[j + 1:j + 1 + len(osegs)] == osegs:
+                        return ".".join(parts[:j + 1] + nsegs + parts[j + 1 + len(osegs):])
+                return path
+            bad = None
+            for j, ((an0, r0), (an1, r1)) in enumerate(zip(orig[1], ren[1])):
+                exp = dict((k, subst(v)) for k, v in r0.items()) if j == i else r0
+                if r1 != exp:
+                    bad = (tokens[j], r0, exp, r1, j == i)
+                    break
+            if bad:
+                p.violation("%s|renamed-map-differs" % tag, where,
+                            "renaming doer %s -> %s: doer %s (%s) resolved to %r before, expected %r after, got %r" % (
+                                old, new, bad[0], "the renamed one" if bad[4] else "not renamed", bad[1], bad[2], bad[3]),
+                            dict(rrep, doer=bad[0], before=bad[1], expected=bad[2], after=bad[3]))
+                continue
+            p.outcome("actor rename %s digit/underscore" % ("involving" if any(c.isdigit() or c == "_" for c in old + new) else "without"))
+    p.sample(dict(doers=tokens, clause=clause, resolved=[r for _, r in orig[1]]), limit=2)
+
+
 BASE = {}
 
 
@@ -648,9 +792,12 @@ def work(arg):
     elif kind == "coll":
         for case in collision_cases(tier)[start:stop]:
             check_collision(real, addr, p, case)
-    else:
+    elif kind == "insular":
         for case in insular_cases(tier)[start:stop]:
             check_insular(real, addr, p, case)
+    else:
+        for case in actor_cases(tier)[start:stop]:
+            check_actor(real, addr, p, case)
     return p
 
 
@@ -710,6 +857,12 @@ def replay(path):
                     hit = "insular"
                     break
         if hit is None:
+            for case in actor_cases("thorough"):
+                if actor_program(case[1], case[2], case[4][1]) == script:
+                    check_actor(real, addr, p, case)
+                    hit = "insular"
+                    break
+        if hit is None:
             print("replay: no program of the family has this script")
             return 2
         if hit != "insular":
@@ -736,8 +889,11 @@ def run():
     items += [("coll", i, i + CHUNK, core.TIER) for i in range(0, len(cc), CHUNK)]
     ci = insular_cases(core.TIER)
     items += [("insular", i, i + CHUNK, core.TIER) for i in range(0, len(ci), CHUNK)]
+    ca = actor_cases(core.TIER)
+    items += [("actor", i, i + 5, core.TIER) for i in range(0, len(ca), 5)]
     ck.merge(core.pmap(work, items))
-    ck.coverage_extra = dict(programs=len(cs), renamings_per_program=len(ENTITIES), collision_programs=len(cc), insular_programs=len(ci),
+    ck.coverage_extra = dict(programs=len(cs), renamings_per_program=len(ENTITIES), collision_programs=len(cc), insular_programs=len(ci), actor_name_programs=len(ca),
+                             actor_name_triples=[(t[0], t[2]) for t in ATRIPLES], actor_name_clauses=[c[0] for c in ACLAUSES],
                              insular_name_pairs=[x[:3] for x in IPAIRS], insular_clone_orders=[x[0] for x in ISEQS],
                              collision_patterns=[x[0] for x in PATTERNS], collision_lines=[x[0] for x in CLINES],
                              collision_renamings_per_program=len(PLACEHOLDERS) + len(CENTITIES), forms=[f[0] for f in FORMS],
